@@ -32,8 +32,36 @@ theorem source_tables_as_modelled :
     dSched = 1 ∧ dHighRun = 1 ∧ dTimeoutMedium = 1 ∧ dConclude = -1 ∧ dModRun = 1 ∧ dModConclude = -1 ∧
     finishedCap = 1 ∧ tokenAfterDec = true ∧ timeoutEnqueueCounts = true ∧ timeoutWaitCounts = false ∧
     runMediumDefaultsZeroDelay = true ∧ runLowDefaultsZeroDelay = true ∧
-    concludeChecksStop = true ∧ counterWritesOutsideModel = 0 := by
+    concludeChecksStop = true ∧ counterWritesOutsideModel = 0 ∧
+    armEnqueueMedium = Arm.param ∧ armWaitMedium = Arm.param ∧ armEnqueueLow = Arm.param ∧ armWaitLow = Arm.param ∧
+    clearanceCallsPassMaxDelay = true ∧ startVariantsPassThrough = true ∧
+    runReturnsFnError = true ∧ runVariantsReturnDirect = true := by
   decide
+
+/-- **Which duration every max-delay timer is armed with.** Each of the four timers of the clearance wait (enqueue
+    phase and wait phase, medium and low priority) is armed with the `maxDelay` parameter of its function; that
+    parameter is what the caller submitted — the Run\* variants replace an argument ≤ 0 by the documented default
+    (1 s medium, 3 s low) and otherwise hand the argument on as it is, the Start\* variants pass theirs to the Run\*
+    variants, the Signal\* variants hand theirs on unchanged (their 0 is the recorded finding). Stated over the
+    regenerated table and functions: arming a timer with a constant, a changed default or a clamped argument breaks
+    this theorem. -/
+theorem timers_armed_with_submitted_max_delay :
+    (∀ ph p, armed ph p = Arm.param) ∧
+    runMediumDelay 0 = 1000000000 ∧ runLowDelay 0 = 3000000000 ∧
+    (∀ d : Int, 0 < d → runMediumDelay d = d ∧ runLowDelay d = d) ∧
+    (∀ d : Int, signalMediumDelay d = d ∧ signalLowDelay d = d) ∧
+    clearanceCallsPassMaxDelay = true ∧ startVariantsPassThrough = true := by
+  refine ⟨armed_param, rfl, rfl, ?_, fun _ => ⟨rfl, rfl⟩, rfl, rfl⟩
+  intro d hd
+  unfold runMediumDelay runLowDelay
+  constructor <;> split <;> omega
+
+/-- … hence, in the model, a timer can fire before the documented max delay of its call has expired only through
+    a `Signal*MicroTask(0)` call: the early-expiry actions (`z = true`) are enabled by `zeroExp` alone. -/
+theorem early_expiry_only_by_signal_zero (ph : Phase) (p : Prio) : earlyExp ph p = zeroExp p := by
+  unfold earlyExp
+  rw [armed_param]
+  simp
 
 /-- the configured limit never changes during a run of the model -/
 theorem limit_constant (lim : Nat) (as : List Act) (s : St) (h : run (init lim) as = some s) : s.lim = lim := by
@@ -365,11 +393,56 @@ theorem runs_exactly_once (lim cls var nilm zd : Nat) (tr : List (Act × Bool)) 
   grind
 
 /-- **The error reaches the caller.** When a blocking variant has returned, its result is the outcome of the
-    function (nil, its error, or the panic turned into an error); on a nil module it is `errNoModule`. -/
+    function — nil, the panic turned into an error, or *that* error value, whichever it is (`out` ranges over all
+    numbers: the harness draws plain errors, `context.Canceled`, errors wrapping it or the package's sentinels, a
+    typed nil, a `*ModuleError`); on a nil module it is `errNoModule`; before the return nothing. (`res` = 0 nothing,
+    1 `errNoModule`, `out + 2` the outcome `out`.) -/
 theorem blocking_variants_return_fn_error (lim cls var nilm zd : Nat) (tr : List (Act × Bool)) (f : FSt)
     (h : frun ⟨init lim, DSt.new cls var nilm zd⟩ tr = some f) :
-    (f.d.pc = 10 → f.d.var = 0 → f.d.res = f.d.out) ∧ (f.d.pc = 11 → f.d.res = 3) ∧
-    (f.d.pc < 10 → f.d.res = 9) := by
+    (f.d.pc = 10 → f.d.var = 0 → f.d.res = f.d.out + 2) ∧ (f.d.pc = 11 → f.d.res = 1) ∧
+    (f.d.pc < 10 → f.d.res = 0) := by
+  have hi := (finv_run tr (inv_init lim) (dinv_new cls var nilm zd) h).2
+  unfold DInv at hi
+  grind
+
+/-- **… in every state of the module.** The task followed together with its module (`tstep`: the module runs through
+    any history meanwhile — it is stopped while the call is in flight, the stop times out, it goes offline, it is
+    restarted; `rflag`/`rst` are its stop flag and status at the moment the function returned): the caller of a
+    blocking variant gets the function's outcome unchanged whatever that state was, for every outcome. -/
+theorem returned_error_unchanged_in_every_module_state (lim cls var zd : Nat) (tr : List TAct) (t : TSt)
+    (h : trun (TSt.new lim cls var zd) tr = some t) (hv : t.f.d.var = 0) (hp : t.f.d.pc = 10) :
+    t.f.d.res = t.f.d.out + 2 := by
+  have hi := (tinv_run tr (inv_init lim) (dinv_new cls var 0 zd) h).2
+  unfold DInv at hi
+  grind
+
+/-- the states are all reachable: for every outcome `out` the function of a blocking call can return while its module
+    is online, while it is stopping (stop flag set, context cancelled), and after the stop has timed out and the
+    module is offline with the flag still set — and the caller gets `out` each time -/
+theorem blocking_return_reachable_in_every_module_state (lim out : Nat) :
+    (∃ tr t, trun (TSt.new lim 2 0 0) tr = some t ∧ t.f.d.pc = 10 ∧ t.f.d.out = out ∧ t.rst = 1 ∧ t.rflag = 0 ∧
+      t.f.d.res = out + 2) ∧
+    (∃ tr t, trun (TSt.new lim 2 0 0) tr = some t ∧ t.f.d.pc = 10 ∧ t.f.d.out = out ∧ t.rst = 2 ∧ t.rflag = 1 ∧
+      t.f.d.res = out + 2) ∧
+    (∃ tr t, trun (TSt.new lim 2 0 0) tr = some t ∧ t.f.d.pc = 10 ∧ t.f.d.out = out ∧ t.rst = 0 ∧ t.rflag = 1 ∧
+      t.f.d.res = out + 2) := by
+  refine ⟨⟨[.task .hcall true, .task .hinc true, .task (.begin true) true, .task (.fnRet true out) true,
+      .task (.modDec true) true, .task .stopCheck true, .task (.dec true) true, .task .tokSend true, .task .ret true],
+      _, rfl, rfl, rfl, rfl, rfl, rfl⟩,
+    ⟨[.task .hcall true, .task .hinc true, .task (.begin true) true, .mod .stopBegin, .mod .flagSet,
+      .task (.fnRet true out) true, .task (.modDec true) true, .task .stopCheck true, .mod (.check true),
+      .task (.dec true) true, .task .tokSend true, .task .ret true], _, rfl, rfl, rfl, rfl, rfl, rfl⟩,
+    ⟨[.task .hcall true, .task .hinc true, .task (.begin true) true, .mod .stopBegin, .mod .flagSet, .mod .timeout,
+      .mod .offline, .task (.fnRet true out) true, .task (.modDec true) true, .task .stopCheck true,
+      .task (.dec true) true, .task .tokSend true, .task .ret true], _, rfl, rfl, rfl, rfl, rfl, rfl⟩⟩
+
+/-- **No timer fires early.** For every task that is not a `Signal*MicroTask(0)` call — whatever its priority, its
+    variant and the max delay it was submitted with — no timer of its clearance wait (enqueue phase, wait phase,
+    while the scheduler holds its request, or late) fires before its documented max delay has expired: the early
+    timer actions are never enabled for it. (They would be if one of the four timers were armed with anything but
+    the caller's max delay: `DSt.early` is stated over the regenerated table `armed`.) -/
+theorem no_early_expiry_unless_signal_zero (lim cls var nilm zd : Nat) (tr : List (Act × Bool)) (f : FSt)
+    (h : frun ⟨init lim, DSt.new cls var nilm zd⟩ tr = some f) (hz : ¬(f.d.zd = 1 ∧ f.d.var = 2)) : f.d.ez = 0 := by
   have hi := (finv_run tr (inv_init lim) (dinv_new cls var nilm zd) h).2
   unfold DInv at hi
   grind
@@ -510,7 +583,7 @@ example : (run (init 2) [.submit .low, .tmoWait .low false, .begin false, .fnRet
 example : (frun ⟨init 2, DSt.new 0 0 0 0⟩ [(.submit .med, true), (.flag, false), (.read, false), (.take .med false, true),
       (.close, false), (.count, false), (.begin false, true), (.fnRet false 1, true), (.modDec false, true),
       (.stopCheck, true), (.dec false, true), (.tokSend, true), (.ret, true)]).map
-    (fun f => (f.d.pc, f.d.execs, f.d.res, f.d.gI, f.d.gD, f.g.cnt)) = some (10, 1, 1, 1, 1, 0) := by decide
+    (fun f => (f.d.pc, f.d.execs, f.d.res, f.d.gI, f.d.gD, f.g.cnt)) = some (10, 1, 3, 1, 1, 0) := by decide
 
 /-- a signalled low task whose `done` is called three times (twice while the first call is still concluding) -/
 example : (frun ⟨init 2, DSt.new 1 2 0 0⟩ [(.submit .low, true), (.flag, false), (.read, false), (.take .low false, true),
@@ -518,10 +591,24 @@ example : (frun ⟨init 2, DSt.new 1 2 0 0⟩ [(.submit .low, true), (.flag, fal
       (.modDec false, true), (.doneAgain, true), (.stopCheck, true), (.dec false, true), (.tokSend, true), (.ret, true)]).map
     (fun f => (f.d.pc, f.d.dones, f.d.gD, f.d.mD, f.g.cnt, f.g.mods)) = some (10, 3, 1, 1, 0, 0) := by decide
 
+/-- a blocking low-priority call in flight when its module is stopped: the function sees the cancelled context and
+    returns error value 102 (say: wrapping `context.Canceled`) while the stop flag is set — the caller gets 102 -/
+example : (trun (TSt.new 2 1 0 0) [.task (.submit .low) true, .task .flag false, .task .read false, .task (.take .low false) true,
+      .task .close false, .task .count false, .task (.begin false) true, .mod .stopBegin, .mod .flagSet,
+      .task (.fnRet false 102) true, .task (.modDec false) true, .task .stopCheck true, .mod (.check true), .mod .wake,
+      .task (.dec false) true, .task .tokSend true, .task .ret true]).map
+    (fun t => (t.f.d.pc, t.rflag, t.rst, t.f.d.out, t.f.d.res, t.m.done)) = some (10, 1, 2, 102, 104, 1) := by decide
+
+/-- a low-priority task submitted with a long max delay cannot leave its wait through an early timer (it could if
+    `armed .wait .low` were a constant); the documented expiry stays possible -/
+example : frun ⟨init 2, DSt.new 1 0 0 0⟩ [(.submit .low, true), (.tmoWait .low true, true)] = none := by decide
+example : (frun ⟨init 2, DSt.new 1 0 0 0⟩ [(.submit .low, true), (.tmoWait .low false, true)]).map
+    (fun f => (f.d.pc, f.d.ez, f.g.tmo, f.g.tz)) = some (4, 0, 1, 0) := by decide
+
 /-- a high-priority panicking task next to a medium task that counts itself after an enqueue timeout -/
 example : (frun ⟨init 2, DSt.new 2 0 0 0⟩ [(.hcall, true), (.submit .med, false), (.hinc, true), (.tmoEnq .med false, false),
       (.tmoInc, false), (.begin true, true), (.begin false, false), (.fnRet true 2, true), (.modDec true, true),
       (.stopCheck, true), (.dec true, true), (.tokSend, true), (.ret, true)]).map
-    (fun f => (f.d.res, f.d.execs, f.g.cnt, f.g.r, f.g.tmo)) = some (2, 1, 1, 1, 1) := by decide
+    (fun f => (f.d.res, f.d.execs, f.g.cnt, f.g.r, f.g.tmo)) = some (4, 1, 1, 1, 1) := by decide
 
 end PB.C15
